@@ -231,8 +231,8 @@ def run(ctx):
                 "through the model with its own recorded paths, or one make_amorphous/make_honeycomb call; non-trivial = at least two "
                 "plaquettes to change; distinct by (lattice, convention, target, guess)")
     rep0 = core.guarded_translate(ctx, translate.regenerate_all, "T-int/T-const", dict(kernels=[], tables=[], changed={}))
-    ctx.translated = [k for k in rep0["kernels"] if k["kernel"] == "ground_state_ansatz"] + \
-                     [t for t in rep0.get("tables", []) if isinstance(t, dict) and t.get("table") == "sign_real"]
+    core.note_translation(ctx, [k for k in rep0["kernels"] if k["kernel"] == "ground_state_ansatz"] + \
+                     [t for t in rep0.get("tables", []) if isinstance(t, dict) and t.get("table") == "sign_real"])
     ctx.run_audit()
     rng = np.random.default_rng(ctx.seed)
     reqs, meta = [], []
@@ -331,6 +331,17 @@ def run(ctx):
         if len(ctx.violations) == before:
             ctx.corr_break(f"the solver calls path_between_plaquettes with maxits={low[0][0]} on a lattice with {low[0][1]} edges: below the budget (n_edges) for which C11 "
                            "states that a path is always found; no target it fails to reach was found", dict(case="budget", maxits=int(low[0][0]), n_edges=int(low[0][1])))
+    # ---- the ground-state ansatz itself (Lieb: flux -(-1)^((n-3)//2)... as translated): direct comparison for every polygon size the generators can produce
+    for n in range(3, 201):
+        want = -((-1) ** ((n - 3) // 2))           # = Gen.ground_state_ansatz n (theorems ansatz_mod4, ansatz_eq_neg_sign_real)
+        try:
+            got = eg.ground_state_ansatz(n)
+        except Exception as ex:
+            ctx.corr_break(f"ground_state_ansatz({n}) raised {type(ex).__name__}: {ex}", dict(case="ansatz", n=n)); break
+        if int(got) != want:
+            ctx.corr_break(f"ground_state_ansatz({n}) = {got}, the translated model gives {want}", dict(case="ansatz", n=n)); break
+    else:
+        ctx.count("ansatz_values_compared", 198)
     amorphous(ctx, rng)
     ctx.assumptions += ["the path finder is a parameter of the model: its recorded results are checked to be chains (C11 decides the path finder)",
                         "Euler's formula E = 3F on closed trivalent lattices is a hypothesis of ansatz_parity (monitored)"]
